@@ -12,6 +12,9 @@
 (*   first(kind,seq,t)   the answer to the registration: "ok" (2.05 with    *)
 (*                       Observe), "noobs" (2.05 without: the resource is   *)
 (*                       not observable), "err" (any other code)            *)
+(*   giveup              the caller's context ends while the registration   *)
+(*                       waits for its first answer (datagram: after the    *)
+(*                       request was acknowledged): Observe() fails         *)
 (*   notify(seq,t)       a notification with this observation's token       *)
 (*   cancel              Cancel() called and completed                      *)
 (* The callback is invoked for the first answer too when it is "ok".        *)
@@ -37,6 +40,7 @@ Step(o, ev) ==
          \* (the code hands the answer of a FAILED registration to the callback as well, once: Observation.handle
          \*  runs the freshness test, which lets every message without an Observe option through)
          ELSE [o |-> [o EXCEPT !.st = "dead", !.ret = "err"], cb |-> TRUE]
+    [] ev.e = "giveup" -> IF o.st = "pending" THEN Keep([o EXCEPT !.st = "dead", !.ret = "err"]) ELSE Keep(o)
     [] ev.e = "notify" ->
          IF o.st # "live" THEN Keep(o)
          ELSE IF ~o.has \/ Fresh(o.seq, ev.seq, o.t, ev.t) THEN Deliver(o, ev.seq, ev.t) ELSE Keep(o)
